@@ -353,7 +353,7 @@ type nativeRecorder struct {
 	buf  bytes.Buffer
 }
 
-func newNativeRecorder() *nativeRecorder { return &nativeRecorder{hdr: http.Header{}} }
+func newNativeRecorder() *nativeRecorder      { return &nativeRecorder{hdr: http.Header{}} }
 func (r *nativeRecorder) Header() http.Header { return r.hdr }
 func (r *nativeRecorder) WriteHeader(code int) {
 	if r.code == 0 {
